@@ -231,7 +231,8 @@ fn typed_marshal<S: AsRef<str>>(p: &ObjectPath<S>, s: &str) -> char {
 }
 
 /// every public way of making an ObjectPath wrapper, followed by the typed Marshal impl:
-/// 0 ObjectPath::<String>::new, 1 TryFrom<&str>, 2 TryFrom<String>, 3 new(&str) and its to_owned()
+/// 0 ObjectPath::<String>::new, 1 TryFrom<&str>, 2 TryFrom<String>, 3 new(&str) and its to_owned(),
+/// 4 / 5 impl Unmarshal for ObjectPath<&str> / ObjectPath<String> on body bytes holding the string
 fn ctor(which: usize, s: &str) -> char {
     use std::convert::TryFrom;
     let r = catch_unwind(AssertUnwindSafe(|| match which {
@@ -250,6 +251,24 @@ fn ctor(which: usize, s: &str) -> char {
             Ok(p) if p.as_ref() != s => 'x',
             Ok(p) => typed_marshal(&p, s),
         },
+        4 => {
+            let body = body_with_path(s);
+            let r = body.parser().get::<ObjectPath<&str>>();
+            match r {
+                Err(_) => 'e',
+                Ok(p) if p.as_ref() != s => 'x',
+                Ok(p) => typed_marshal(&p, s),
+            }
+        }
+        5 => {
+            let body = body_with_path(s);
+            let r = body.parser().get::<ObjectPath<String>>();
+            match r {
+                Err(_) => 'e',
+                Ok(p) if p.as_ref() != s => 'x',
+                Ok(p) => typed_marshal(&p, s),
+            }
+        }
         _ => match ObjectPath::new(s) {
             Err(_) => 'e',
             Ok(p) if p.as_ref() != s => 'x',
@@ -267,23 +286,82 @@ fn ctor(which: usize, s: &str) -> char {
     r.unwrap_or('p')
 }
 
-/// the string as an object path parameter in a message body (params::Base::ObjectPath)
-fn body_path(s: &str) -> char {
+fn le_str(s: &str) -> Vec<u8> {
+    let mut v = (s.len() as u32).to_le_bytes().to_vec();
+    v.extend_from_slice(s.as_bytes());
+    v.push(0);
+    v
+}
+
+/// the string as an object path pushed into a message body with the Param API, by six routes:
+/// 0 Base::ObjectPath(String), 1 Base::ObjectPathRef(&str), 2 array element, 3 variant value,
+/// 4 dict key, 5 struct field. o = Ok and the body bytes are exactly the encoding of that value,
+/// e = Err, x = Ok with other bytes/signature
+fn body_path(route: usize, s: &str) -> char {
+    use rustbus::params::{Array, Container, Dict, Variant};
+    use rustbus::signature;
     let r = catch_unwind(AssertUnwindSafe(|| {
+        let o = signature::Type::Base(signature::Base::ObjectPath);
+        let owned = || Param::Base(Base::ObjectPath(s.to_string()));
+        let byref = || Param::Base(Base::ObjectPathRef(s));
+        let enc = le_str(s);
+        let (param, sig, bytes): (Param, &str, Vec<u8>) = match route {
+            0 => (owned(), "o", enc.clone()),
+            1 => (byref(), "o", enc.clone()),
+            2 => {
+                let mut b = (enc.len() as u32).to_le_bytes().to_vec();
+                b.extend_from_slice(&enc);
+                (
+                    Param::Container(Container::Array(Array {
+                        element_sig: o.clone(),
+                        values: vec![byref()],
+                    })),
+                    "ao",
+                    b,
+                )
+            }
+            3 => {
+                let mut b = vec![1, b'o', 0, 0];
+                b.extend_from_slice(&enc);
+                (
+                    Param::Container(Container::Variant(Box::new(Variant {
+                        sig: o.clone(),
+                        value: owned(),
+                    }))),
+                    "v",
+                    b,
+                )
+            }
+            4 => {
+                let mut map = std::collections::HashMap::new();
+                map.insert(Base::ObjectPathRef(s), Param::Base(Base::Byte(9)));
+                let mut b = ((enc.len() + 1) as u32).to_le_bytes().to_vec();
+                b.extend_from_slice(&[0, 0, 0, 0]);
+                b.extend_from_slice(&enc);
+                b.push(9);
+                (
+                    Param::Container(Container::Dict(Dict {
+                        key_sig: signature::Base::ObjectPath,
+                        value_sig: signature::Type::Base(signature::Base::Byte),
+                        map,
+                    })),
+                    "a{oy}",
+                    b,
+                )
+            }
+            _ => (
+                Param::Container(Container::Struct(vec![owned()])),
+                "(o)",
+                enc.clone(),
+            ),
+        };
         let mut body = MarshalledMessageBody::with_byteorder(ByteOrder::LittleEndian);
-        match body.push_old_param(&Param::Base(Base::ObjectPath(s.to_string()))) {
+        match body.push_old_param(&param) {
             Err(_) => 'e',
             Ok(()) => {
-                // u32 length, bytes, NUL
                 let mut msg = MarshalledMessage::with_byteorder(ByteOrder::LittleEndian);
                 msg.body = body;
-                let b = msg.get_buf();
-                let ok = msg.get_sig() == "o"
-                    && b.len() == 4 + s.len() + 1
-                    && rd_u32(b'l', &b[0..4]) == s.len()
-                    && &b[4..4 + s.len()] == s.as_bytes()
-                    && b[4 + s.len()] == 0;
-                if ok {
+                if msg.get_sig() == sig && msg.get_buf() == &bytes[..] {
                     'o'
                 } else {
                     'x'
@@ -292,6 +370,99 @@ fn body_path(s: &str) -> char {
         }
     }));
     r.unwrap_or('p')
+}
+
+/// a body that holds the string with signature "o", as it arrives from a peer
+fn body_with_path(s: &str) -> MarshalledMessageBody {
+    MarshalledMessageBody::from_parts(le_str(s), 0, Vec::new(), "o".to_string(), ByteOrder::LittleEndian)
+}
+
+/// receive side of a body object path: 0 parser().get_param(), 1 MarshalledMessageBody::validate()
+fn recv_path(which: usize, s: &str) -> char {
+    let r = catch_unwind(AssertUnwindSafe(|| {
+        let body = body_with_path(s);
+        if which == 0 {
+            match body.parser().get_param() {
+                Err(_) => 'e',
+                Ok(Param::Base(Base::ObjectPath(p))) if p == s => 'o',
+                Ok(_) => 'x',
+            }
+        } else {
+            match body.validate() {
+                Err(_) => 'e',
+                Ok(()) => 'o',
+            }
+        }
+    }));
+    r.unwrap_or('p')
+}
+
+/// hand-written encoder of a little-endian header with the given name fields (position, string)
+/// and optional reply serial; independent of rustbus's marshaller
+fn encode_header(typ: usize, names: &[(usize, &str)], reply_serial: bool) -> Vec<u8> {
+    let mut b = vec![b'l', [1u8, 4, 2, 3][typ], 0, 1, 0, 0, 0, 0, 1, 0, 0, 0, 0, 0, 0, 0];
+    let pad8 = |b: &mut Vec<u8>| {
+        while b.len() % 8 != 0 {
+            b.push(0)
+        }
+    };
+    if reply_serial {
+        pad8(&mut b);
+        b.extend_from_slice(&[5, 1, b'u', 0, 7, 0, 0, 0]);
+    }
+    for (j, v) in names {
+        pad8(&mut b);
+        b.extend_from_slice(&[CODES[*j], 1, if *j == 0 { b'o' } else { b's' }, 0]);
+        b.extend_from_slice(&le_str(v));
+    }
+    let flen = (b.len() - 16) as u32;
+    b[12..16].copy_from_slice(&flen.to_le_bytes());
+    pad8(&mut b);
+    b
+}
+
+/// decode a header of type `typ` that carries `s` in position k (same configurations as wire1)
+fn recv1(k: usize, s: &str, typ: usize, full: bool) -> char {
+    use rustbus::wire::unmarshal::{unmarshal_dynamic_header, unmarshal_header};
+    use rustbus::wire::unmarshal_context::Cursor;
+    let r = catch_unwind(AssertUnwindSafe(|| {
+        let present = |j: usize| full || j == k || REQUIRED[typ].contains(&j);
+        let names: Vec<(usize, &str)> = (0..6)
+            .filter(|j| present(*j))
+            .map(|j| (j, if j == k { s } else { DEFAULTS[j] }))
+            .collect();
+        let bytes = encode_header(typ, &names, typ >= 2);
+        let mut cursor = Cursor::new(&bytes);
+        let header = match unmarshal_header(&mut cursor) {
+            Ok(h) => h,
+            Err(_) => return 'x', // the fixed part is always well-formed
+        };
+        match unmarshal_dynamic_header(&header, &mut cursor) {
+            Err(_) => 'e',
+            Ok(dh) => {
+                let got = [&dh.object, &dh.interface, &dh.member, &dh.error_name, &dh.destination, &dh.sender];
+                let same = (0..6).all(|j| {
+                    got[j].as_deref() == (if present(j) { Some(if j == k { s } else { DEFAULTS[j] }) } else { None })
+                });
+                if same {
+                    'o'
+                } else {
+                    'x'
+                }
+            }
+        }
+    }));
+    r.unwrap_or('p')
+}
+
+fn recv(k: usize, s: &str) -> (char, Option<String>) {
+    let d: String = (0..8).map(|c| recv1(k, s, c / 2, c % 2 == 1)).collect();
+    let first = d.chars().next().unwrap();
+    if d.chars().all(|c| c == first) {
+        (first, None)
+    } else {
+        ('m', Some(format!("{}={}", k, d)))
+    }
 }
 
 fn is_name_char(c: char) -> bool {
@@ -323,18 +494,24 @@ fn eval(s: &str, n: u64) -> (bool, bool, String) {
     let ws: Vec<(char, Option<String>)> = (0..6).map(|k| wire(k, s, bo)).collect();
     let w: String = ws.iter().map(|x| x.0).collect();
     let wd: Vec<String> = ws.into_iter().filter_map(|x| x.1).collect();
-    let y = body_path(s);
-    let t: String = (0..4).map(|k| ctor(k, s)).collect();
+    let y: String = (0..6).map(|k| body_path(k, s)).collect();
+    let t: String = (0..6).map(|k| ctor(k, s)).collect();
+    let r: String = (0..2).map(|k| recv_path(k, s)).collect();
+    let hs: Vec<(char, Option<String>)> = (0..6).map(|k| recv(k, s)).collect();
+    let h: String = hs.iter().map(|x| x.0).collect();
+    let hd: Vec<String> = hs.into_iter().filter_map(|x| x.1).collect();
     let interesting = [p, i, e, b, m, o].iter().any(|v| *v != "err")
         || w != "eeeeee"
-        || y != 'e'
-        || t != "eeee";
+        || y != "eeeeee"
+        || t != "eeeeee"
+        || r != "ee"
+        || h != "eeeeee";
     let nontrivial = interesting || (s.chars().any(is_sep) && s.chars().any(is_name_char));
     (
         interesting,
         nontrivial,
         format!(
-            "{} P:{} I:{} E:{} B:{} M:{} O:{} W:{} Y:{} T:{}{}",
+            "{} P:{} I:{} E:{} B:{} M:{} O:{} W:{} Y:{} T:{} R:{} H:{}{}{}",
             hex(s.as_bytes()),
             p,
             i,
@@ -345,10 +522,17 @@ fn eval(s: &str, n: u64) -> (bool, bool, String) {
             w,
             y,
             t,
+            r,
+            h,
             if wd.is_empty() {
                 String::new()
             } else {
                 format!(" WD:{}", wd.join(","))
+            },
+            if hd.is_empty() {
+                String::new()
+            } else {
+                format!(" HD:{}", hd.join(","))
             }
         ),
     )
